@@ -297,8 +297,10 @@ def specC04 (s : St) (status : String) : List String := Id.run do
           let kind := if extra.isEmpty && !missing.isEmpty && missing == wseqs.filter (· > lastCur) then "stranded-tail"
                       else if extra.isEmpty && missing == [0] then "first-event" else "other"
           out := out ++ [s!"SPECFAIL C04 handler {k}.{j} delivered≠published kind={kind} missing={missing.take 8} extra={extra.take 8} producer={if s.cfg.multi then "multi" else "single"}"]
-      -- payload
-      for h in mine do
+      -- payload (not judged for a handler that shares its stage with a mutable handler: within such a stage the order of the
+      -- handlers is undefined — known finding F9, reported under C05)
+      let mixed := stage.length ≥ 2 && stage.any id
+      for h in (if mixed then [] else mine) do
         match ws.find? (fun w => w.1 == h.seq && w.2.2.1 < h.pos), expectedPayload s.cfg.stages k 0 with
         | some w, some _ =>
           -- latest write of that sequence before the handler call
@@ -537,7 +539,13 @@ def handler (prop : String) : Handler St where
        model := some (mkModel cfg) },
      if toks.head? == some "ok" then [] else [s!"MISMATCH harness could not start the case: {ans}"])
   onOp s op args ans :=
-    if op == "end" then
+    if op == "run" then
+      -- bounded-preemption search: every `run` block is a fresh execution of the same configuration
+      let toks := (ans.splitOn " ").filter (· ≠ "")
+      let locs := (toks.drop 1).filterMap (fun t => match t.splitOn "=" with | [a, b] => some (a, b) | _ => none)
+      ({ prop := s.prop, cfg := s.cfg, caseOk := true, locs := locs, model := some (mkModel s.cfg) }, [])
+    else if op == "dfs-summary" then (s, [])
+    else if op == "end" then
       let msgs := finish s ans
       ({ s with caseOk := false }, msgs)
     else
